@@ -991,3 +991,42 @@ theorem diffBase_filter_merge (src b : Prof) (hsrc : ∀ s ∈ src, s.1.base = f
     absTotal_dropZero _ _ (col_of_isZero i), absTotal_neg, absTotal_setBase]
 
 end PV.Combine
+
+namespace PV.Combine
+
+/-! ### the pinned survival rule agrees with the repaired one when every column is scaled -/
+
+theorem keepPinned_eq (rs : List Ratio) (v : Vals) (h1 : ∀ r ∈ rs, r.isOne = false) :
+    keepPinned rs v = !isZero (scaleVec rs v) := by
+  induction rs generalizing v with
+  | nil => simp [keepPinned, scaleVec, isZero]
+  | cons r rs ih =>
+    cases v with
+    | nil => simp [keepPinned, scaleVec, isZero]
+    | cons x xs =>
+      have hr : r.isOne = false := h1 r (by simp)
+      have := ih xs (fun q hq => h1 q (by simp [hq]))
+      unfold keepPinned scaleVec isZero at this ⊢
+      simp only [List.zipWith_cons_cons, List.any_cons, List.all_cons, hr, Bool.not_false, Bool.true_and,
+        Bool.false_eq_true, if_false, id, this]
+      cases hx : (scaleVal r x == 0) <;> simp [hx, bne]
+
+theorem scaleNPinned_eq_scaleN (rs : List Ratio) (n : Nat) (p : Prof)
+    (h1 : ∀ r ∈ rs, r.isOne = false) : scaleNPinned rs n p = scaleN rs n p := by
+  unfold scaleNPinned scaleN
+  split
+  · rfl
+  · split
+    · rfl
+    · split
+      · rfl
+      · congr 1
+        unfold dropZero
+        rw [List.filter_map]
+        congr 1
+        apply List.filter_congr
+        intro s _
+        simp only [Function.comp]
+        exact keepPinned_eq rs s.2 h1
+
+end PV.Combine
